@@ -158,6 +158,13 @@ def run_sequence(sc):
                 mdl.alter(pname, idx, x, attr="vin")
             elif op == "set":
                 mdl.set(pname, idx, "v", x)
+            elif op == "table_vin":
+                # the whole input table handed back with one cell changed (what the notebook sheet editor does)
+                df = mdl.cache.df_in.copy() if hasattr(mdl.cache, "df_in") else mdl.as_df(vin=True)
+                col = list(df[pname])
+                col[mdl.idx.v.index(idx)] = x
+                df[pname] = col
+                mdl.update_from_df(df, vin=True)
             elif op == "group_alter":
                 ss.groups[groups[key]].alter(pname, idx, x)
             elif op == "reset":
@@ -175,7 +182,7 @@ def run_sequence(sc):
         k = a["k"]
         close = lambda p, q: abs(p - q) <= 1e-12 * max(1.0, abs(p), abs(q))   # noqa
         rec["consistent"] = bool(close(a["v"], a["vin"] * k))
-        if op in ("alter_v", "group_alter"):
+        if op in ("alter_v", "group_alter", "table_vin"):
             rec["effect_ok"] = bool(close(a["vin"], x) and close(a["v"], x * k))
         elif op == "alter_vin":
             rec["effect_ok"] = bool(close(a["v"], x) and close(a["vin"], x / k))
